@@ -292,27 +292,44 @@ impl Explorer {
             bound: usize,
             expected: Vec<crate::ctx::Atom>,
         }
-        let mut work: Vec<Item> = Vec::new();
+        let mut work: std::collections::VecDeque<Item> = std::collections::VecDeque::new();
+        let mut take_front = false;
         let mut seen_flips: std::collections::HashSet<u64> = std::collections::HashSet::new();
         let mut seen_classes: std::collections::HashSet<u64> = std::collections::HashSet::new();
         let mut siblings: std::collections::HashMap<u64, Vec<crate::ctx::Atom>> = std::collections::HashMap::new();
         let mut pinned_seen: std::collections::HashMap<Var, Vec<BigInt>> = std::collections::HashMap::new();
         let mut open_branches = 0usize; // flips whose feasibility the solver could not decide
         let mut divergences = 0usize;
-        // first input: any point of Bounds ∧ Pre
-        match self.z3.check_model(&input_names) {
+        let mut over_budget_paths = 0usize;
+        // first input: a point of Bounds ∧ Pre, preferably generic (every input non-zero), so that the
+        // budgeted part of the exploration starts in the densest region instead of the all-zero corner
+        let first = {
+            let z = &mut self.z3;
+            z.push();
+            for n in &input_names {
+                z.assert(&format!("(distinct {} 0)", n));
+            }
+            let r = z.check_model(&input_names);
+            z.pop();
+            match r {
+                (Answer::Sat, Some(m)) => (Answer::Sat, Some(m)),
+                _ => self.z3.check_model(&input_names),
+            }
+        };
+        match first {
             (Answer::Unsat, _) => {
                 res.exhaustive = true;
                 res.stop_reason = "Bounds ∧ Pre is unsatisfiable (no input)".into();
             }
             (Answer::Unknown(w), _) => res.stop_reason = format!("solver gave up on the initial query: {}", w),
             (Answer::Sat, m) => match m {
-                Some(m) => work.push(Item { model: input_names.iter().map(|n| m.get(n).cloned().unwrap_or_else(BigInt::zero)).collect(), bound: 0, expected: vec![] }),
+                Some(m) => work.push_back(Item { model: input_names.iter().map(|n| m.get(n).cloned().unwrap_or_else(BigInt::zero)).collect(), bound: 0, expected: vec![] }),
                 None => res.errors.push("could not read model".into()),
             },
         }
         let mut stopped_early = false;
-        while let Some(item) = work.pop() {
+        // alternate between the shallowest and the deepest pending flip
+        while let Some(item) = { take_front = !take_front; if take_front { work.pop_front() } else { work.pop_back() } } {
             if res.classes >= budget.max_classes {
                 res.stop_reason = format!("class budget ({}) reached", budget.max_classes);
                 stopped_early = true;
@@ -420,6 +437,11 @@ impl Explorer {
                 }
             };
             for (i, atom) in rec.pc.iter().enumerate() {
+                if t0.elapsed().as_secs_f64() > budget.max_secs * 1.25 {
+                    // over budget in the middle of a path: the remaining flips of this path are not examined
+                    over_budget_paths += 1;
+                    break;
+                }
                 let mut vs = BTreeSet::new();
                 atom.p.vars(&mut vs);
                 if let Some(&mx) = vs.iter().next_back() {
@@ -447,8 +469,28 @@ impl Explorer {
                         hh.finish()
                     };
                     if seen_flips.insert(key) {
-                        z.push();
+                        // declare every auxiliary the sibling atoms mention (same variable ids: identical prefix)
+                        let mut smax: Option<Var> = None;
+                        let mut usable: Vec<&crate::ctx::Atom> = Vec::new();
                         for a in sib.iter() {
+                            let mut vs = BTreeSet::new();
+                            a.p.vars(&mut vs);
+                            match vs.iter().next_back() {
+                                Some(&mx) if (mx as usize) >= rec.vars.len() => continue, // not a variable of this run: cannot be stated here
+                                Some(&mx) => {
+                                    smax = Some(smax.map_or(mx, |s| s.max(mx)));
+                                    usable.push(a);
+                                }
+                                None => usable.push(a),
+                            }
+                        }
+                        if let Some(mx) = smax {
+                            if mx >= n_inputs {
+                                need(z, mx, &mut declared, &mut defs_done);
+                            }
+                        }
+                        z.push();
+                        for a in usable.iter() {
                             // siblings may mention auxiliaries of this run only if they were created before position i,
                             // which holds because the prefix (hence the sequence of operations) is identical
                             z.assert(&a.negated().smt(&nm));
@@ -461,7 +503,7 @@ impl Explorer {
                                     let mut exp: Vec<crate::ctx::Atom> = rec.pc[..i].to_vec();
                                     exp.push(atom.negated());
                                     // bound = i: the child re-examines position i with the enlarged sibling set
-                                    work.push(Item { model: input_names.iter().map(|n| m.get(n).cloned().unwrap_or_else(BigInt::zero)).collect(), bound: i, expected: exp });
+                                    work.push_back(Item { model: input_names.iter().map(|n| m.get(n).cloned().unwrap_or_else(BigInt::zero)).collect(), bound: i, expected: exp });
                                 }
                                 None => res.errors.push("could not read model".into()),
                             },
@@ -498,7 +540,7 @@ impl Explorer {
                                             if let Some(m) = m {
                                                 let mut exp: Vec<crate::ctx::Atom> = rec.pc[..i].to_vec();
                                                 exp.push(atom.negated());
-                                                work.push(Item { model: input_names.iter().map(|n| m.get(n).cloned().unwrap_or_else(BigInt::zero)).collect(), bound: i, expected: exp });
+                                                work.push_back(Item { model: input_names.iter().map(|n| m.get(n).cloned().unwrap_or_else(BigInt::zero)).collect(), bound: i, expected: exp });
                                             }
                                         }
                                     }
@@ -607,7 +649,7 @@ impl Explorer {
         res.open_branches = open_branches;
         res.divergences = divergences;
         if !stopped_early && res.stop_reason.is_empty() {
-            if open_branches == 0 && divergences == 0 && res.budget_classes == 0 && res.errors.is_empty() {
+            if open_branches == 0 && divergences == 0 && res.budget_classes == 0 && res.errors.is_empty() && over_budget_paths == 0 {
                 res.exhaustive = true;
                 res.stop_reason = "path tree complete: every branch flip is explored or proven infeasible; runs were deterministic".into();
             } else {
